@@ -155,5 +155,19 @@ func VerifC14_Cancellation() {
 	if neverStarted {
 		vAssert("unfinished-graph-reports-error", err != nil)
 	}
+	// full report: whatever the schedule, a task that never started is accounted
+	// for by exactly one ErrorTaskSkipped entry (no task fails or skips here)
+	never, gotSkipped := 0, 0
+	for i := 0; i < s.n; i++ {
+		if !s.entered(i) {
+			never++
+		}
+	}
+	for _, e := range errorsOf(err) {
+		if errors.Is(e, ErrorTaskSkipped) {
+			gotSkipped++
+		}
+	}
+	vAssert("never-started-tasks-reported-skipped-under-cancellation", gotSkipped == never)
 	vReach("ran")
 }
